@@ -93,12 +93,11 @@ def scalar_mult(x, y, out=None):
               Either overwrites `out`, or returns a new tensor.
     :rtype: torch.Tensor
     """
+    if out is not None and (out is x or out is y):
+        raise RuntimeError("Can't overwrite an argument!")
     y = y.to(x)
     if out is None:
         out = torch.zeros(2, *((real(x) * real(y)).shape)).to(x)
-    else:
-        if out is x or out is y:
-            raise RuntimeError("Can't overwrite an argument!")
 
     torch.mul(real(x), real(y), out=real(out)).sub_(torch.mul(imag(x), imag(y)))
     torch.mul(real(x), imag(y), out=imag(out)).add_(torch.mul(imag(x), real(y)))
